@@ -1,4 +1,13 @@
 #include <fault/util.hpp>
+#ifdef YACLIB_VERIF
+#  include <yaclib/fault/detail/verif.hpp>
+
+namespace yaclib::verif {
+
+Hooks gHooks;
+
+}  // namespace yaclib::verif
+#endif
 
 namespace yaclib::detail {
 
@@ -20,6 +29,13 @@ std::uint32_t GetSeed() {
 }
 
 std::uint64_t GetRandNumber(std::uint64_t max) {
+#ifdef YACLIB_VERIF
+  if (verif::gHooks.rand != nullptr) {
+    if (const long long r = verif::gHooks.rand(max); r >= 0) {
+      return static_cast<std::uint64_t>(r);
+    }
+  }
+#endif
 #if YACLIB_FAULT == 2
   sRandCount++;
 #endif
